@@ -21,7 +21,7 @@ from vf.driver import sig_of
 ID = "C07"
 LEVEL = "fault_enumeration"
 STAGES = ["accepted", "connected", "sub", "suball", "paused", "logger", "accepted_sub", "accepted_suball"]
-WAYS = ["disc", "fin", "rst", "partial_fin", "partial_rst", "write", "refused_dup", "refused_range", "refused_name"]
+WAYS = ["disc", "fin", "rst", "partial_fin", "partial_rst", "write", "refused_dup", "refused_range", "refused_name", "frame_fin", "frame_rst"]
 RULE = ("cases = way of leaving {DISCONNECT, FIN, RST, FIN/RST after every byte offset of a frame it was sending, reset "
         "discovered while the manager writes to it, refusal at connect (duplicate id, id out of range, duplicate name)} x "
         "stage {accepted, connected, subscribed, sub-all, paused, logger} x {alone, second departure in the same round} x "
@@ -85,6 +85,12 @@ def dep_steps(L, idn, name, d, tcode):
             data = data[:48] + b"\0" * 8 + data[48:]
         off = max(1, min(d.get("off", 10), len(data) - 1))
         leave = [["raw", L, data[:off].hex(), 0], ["close", L, way[-3:]], ["await_closed", L]]
+    elif way in ("frame_fin", "frame_rst"):
+        # a complete last request is queued, then the connection is closed / reset before the manager has answered it
+        fk = d.get("frame", "sub")
+        mt = {"sub": W.MT_SUBSCRIBE, "resume": W.MT_RESUME, "unsub": W.MT_UNSUBSCRIBE, "pause": W.MT_PAUSE}.get(fk)
+        data = W.frame_bytes(mt, W.p_sub(T2), src_mod=idn, timecode=tcode) if mt else W.frame_bytes(T, b"\x66" * 16, src_mod=idn, send_time=6.0, timecode=tcode)
+        leave = [["raw", L, data.hex(), 1, f"complete {fk} frame then {way[-3:]}"], ["close", L, way[-3:]], ["await_closed", L]]
     elif way == "write":
         leave = [["close", L, "rst"], ["await_closed", L]]
         excl = True
@@ -148,6 +154,8 @@ def gen_cases(tier, seed):
     def valid(stage, way):
         if way.startswith("refused"):
             return stage == "accepted"
+        if way.startswith("frame_"):
+            return not stage.startswith("accepted")
         if stage.startswith("accepted"):
             return way in ("fin", "rst", "partial_fin", "partial_rst")
         return True
@@ -166,6 +174,10 @@ def gen_cases(tier, seed):
     for w in ("refused_dup", "refused_range", "refused_name"):
         for trig in ("pub", "ctl"):
             add({"d1": {"stage": "accepted", "way": w, "pre_sub": True}, "trigger": trig})
+    for st in ("connected", "sub", "paused", "suball", "logger"):
+        for fk in ("sub", "resume", "unsub", "pause", "pub"):
+            for w in ("frame_fin", "frame_rst"):
+                add({"d1": {"stage": st, "way": w, "frame": fk}, "trigger": rng.choice(["pub", "ctl"])})
     for bad in (0x7FFF, -1, 101, 200, 201, -32768):
         add({"d1": {"stage": "accepted", "way": "refused_range", "bad_id": bad}, "trigger": "pub"})
     pairs = [(a, b) for a in singles for b in singles if not (a[1].startswith("refused") and b[1].startswith("refused"))]
@@ -206,7 +218,8 @@ def judge(sc, c, n_before):
         res["inconclusive"] = "; ".join(sc.problems[:3])
         return res
     rx = sc.received()
-    for mech, detail in stream_checks(sc, rx):
+    # the departing client's last raw frame may itself be a data frame that survivors legitimately receive
+    for mech, detail in stream_checks(sc, rx, allow_alien=True):
         V.append({"mech": "c05:" + mech, "detail": detail})
     deps = [("D", 20, "dd", c["d1"])] + ([("E", 21, "ee", c["d2"])] if c.get("d2") else [])
     closed = [W.unpack_client(f.payload) for f in rx["M"]["frames"] if f.msg_type == W.MT_CLIENT_CLOSED and len(f.payload) == 80]
